@@ -9,6 +9,7 @@ mod engine;
 mod keys;
 mod pair;
 mod props;
+mod stack;
 mod wire;
 
 use engine::{Run, Tier};
